@@ -1432,9 +1432,8 @@ inline constexpr void Conversion<Unit::MemoryRate, Unit::MemoryRate::PebibytePer
 }
 
 template <typename NumericType>
-inline const std::map<Unit::MemoryRate,
-                      std::function<void(NumericType* values, const std::size_t size)>>
-    MapOfConversionsFromStandard<Unit::MemoryRate, NumericType>{
+inline constexpr auto MapOfConversionsFromStandard<Unit::MemoryRate, NumericType>{
+  MakeConversionTable<Unit::MemoryRate, NumericType>({
       {Unit::MemoryRate::BitPerSecond,
        Conversions<Unit::MemoryRate, Unit::MemoryRate::BitPerSecond>::FromStandard<NumericType>   },
       {Unit::MemoryRate::BytePerSecond,
@@ -1607,12 +1606,12 @@ inline const std::map<Unit::MemoryRate,
        Conversions<Unit::MemoryRate, Unit::MemoryRate::PetabytePerHour>::FromStandard<NumericType>},
       {Unit::MemoryRate::PebibytePerHour,
        Conversions<Unit::MemoryRate, Unit::MemoryRate::PebibytePerHour>::FromStandard<NumericType>},
+})
 };
 
 template <typename NumericType>
-inline const std::map<Unit::MemoryRate,
-                      std::function<void(NumericType* const values, const std::size_t size)>>
-    MapOfConversionsToStandard<Unit::MemoryRate, NumericType>{
+inline constexpr auto MapOfConversionsToStandard<Unit::MemoryRate, NumericType>{
+  MakeConversionTable<Unit::MemoryRate, NumericType>({
       {Unit::MemoryRate::BitPerSecond,
        Conversions<Unit::MemoryRate, Unit::MemoryRate::BitPerSecond>::ToStandard<NumericType>     },
       {Unit::MemoryRate::BytePerSecond,
@@ -1745,6 +1744,7 @@ inline const std::map<Unit::MemoryRate,
        Conversions<Unit::MemoryRate, Unit::MemoryRate::PetabytePerHour>::ToStandard<NumericType>  },
       {Unit::MemoryRate::PebibytePerHour,
        Conversions<Unit::MemoryRate, Unit::MemoryRate::PebibytePerHour>::ToStandard<NumericType>  },
+})
 };
 
 }  // namespace Internal
